@@ -107,3 +107,15 @@ PROPS["C05"] = {
              + hash_parts({"cases": 30000, "maxsize": 40}, {"cases": 300000, "maxsize": 150, "workers": 16})
              + [p for p in seq_parts({"cases": 30000, "maxsize": 40}, {"cases": 300000, "maxsize": 150, "workers": 16}) if p["name"] != "array"],
 }
+
+
+PROPS["C06"] = {
+    "level": "exploration",
+    "level_text": "random operation histories over four String variables that share buffers (copy/assign of owned strings), literals and windows of a guarded memory pool (terminated and unterminated attach), against std::string models with every variable, every literal and the pool re-checked after every operation, under ASan",
+    "level_note": "trusted: reference implementations in harness/c06_string.cpp (plain loops / std::string searches written from the documented meaning), ASan; C-string based operations are only compared on NUL-free strings; raw pointer arguments never alias the receiver; needles are non-empty",
+    "technique": "stateful property-based testing against std::string models over several aliasing variables, guard bytes on source memory, ASan",
+    "rule": "opfuzz: histories of 2..size ops from 32 operation kinds (constructors, copy, assign, attach, append/prepend (String incl. itself, pointer+length, char), +=, +, clear, resize, reserve, detach, replace(char), replace(String,String), case mapping, trim, substr, token(char/set) to exhaustion, split into List and HashSet, join, printf/fromPrintf across the 200 byte first buffer, C-string view, 20 query functions). "
+            "Non-trivial = some variable was mutated while it shared its buffer with another variable AND (a mutation of an unterminated attached string OR an operation whose argument is the receiver itself); distinct by case text hash.",
+    "assumptions": ["String::attach(p,n) requires p[n] to be readable (all callers attach to windows of NUL-terminated text)", "C-string semantics only for NUL-free strings", "needles of replace/find are non-empty"],
+    "parts": [opf("string", ["harness/c06_string.cpp"], {"cases": 1200000, "maxsize": 40}, {"cases": 2000000, "maxsize": 120, "workers": 16})],
+}
